@@ -53,3 +53,6 @@ add("C20", "exploration", "goroutine-stack census of the keep-alive loop after e
 add("C16", "exploration", "exhaustive probing of a source-derived name grid and per-method arity/type grid against the built binaries and the in-process registry, with invocation counters / state digest",
     "Names derived from the tree with go/parser x prefixes x case variants probed against the built pool binary (HTTP, WebSocket), the built agent binary (reverse channel) and in-process registries; per registered method every wrong arity, absent/null/non-array params and every other JSON type per position must give invalid-params and not run the method.",
     "Exhaustive over the generated grid only; null at a parameter position is not treated as wrongly typed.")
+add("C15", "exploration", "structure-aware hostile-input generation against in-process handlers (supervised child, inputs logged first) and against the built pool/agent binaries as child processes with crash-signature extraction and canary connections",
+    "Requests per endpoint with hostile arities/leaves/signatures and correctly signed hostile parameters; byte/shape garbage; unsolicited, duplicate and empty replies; a harness playing malicious host and malicious pool; process death, panics, missing or malformed replies and unanswered canaries are violations.",
+    "Coverage is the generated corpus (counts per class in evidence). ASan/race builds only in the thorough tier. A process-fatal error is attributed to the last logged input.")
